@@ -196,12 +196,12 @@ const _: () = {
             let TextOrFiles::Files(files) = &mut self.text_ot_files else {
                 return Err((|| Error::ExpectedFile())())
             };
-            (files.len() == 1)
-                .then_some({
-                    let file = unsafe {files.pop().unwrap_unchecked()};
-                    visitor.visit_map(file.into_deserializer())?
-                })
-                .ok_or_else(Error::UnexpectedMultipleFiles)
+            /* exactly one file: an empty list (no file selected) or several files don't fit a single `File` */
+            match (files.pop(), files.is_empty()) {
+                (Some(file), true) => visitor.visit_map(file.into_deserializer()),
+                (None, _)          => Err((|| Error::ExpectedFile())()),
+                (Some(_), false)   => Err((|| Error::UnexpectedMultipleFiles())()),
+            }
         }
 
         fn deserialize_seq<V>(self, visitor: V) -> Result<V::Value, Self::Error>
